@@ -360,7 +360,8 @@ def splitAudioOnTier(
 
     # Build the output name template
     name = os.path.splitext(os.path.split(wavFN)[1])[0]
-    orderOfMagnitude = int(math.floor(math.log10(len(entries))))
+    # (a tier without entries to extract yields no files; log10(0) is undefined)
+    orderOfMagnitude = int(math.floor(math.log10(max(len(entries), 1))))
 
     # We want one more zero in the output than the order of magnitude
     # (a percent sign in the file name is not part of the number format)
